@@ -45,7 +45,7 @@ def describe (s : St) : Tid → String
     | .rPutNone => "replQ.put None"
     | .rStopSet => "R.stop_event.set"
     | .rJoin => "join R"
-    | .exitPut _ => "workQ.put None"
+    | .exitPut _ => if capFull s.cfg.workCap s.workQ then "workQ.put Full" else "workQ.put None"
     | .exitJoin i => s!"join W{(s.procs[i]?).getD 0}"
     | .done => "done"
   | .f => match s.fpc with
